@@ -687,16 +687,75 @@ fn check_fold(op: AluOp, x: i32, y: i32, acc: &mut Acc) {
 /// `li t0, x; li t1, y; op t2, t0, t1` (and the forms with the zero register as an operand and with an
 /// immediate) are analysed, and wherever the analysis claims a constant for the result it must be
 /// the RV32IM value.
+pub struct Probe {
+    ins_index: usize,
+    text: String,
+    /// reference result; None = the result depends on a value the analysis cannot know
+    want: Option<i32>,
+    class: &'static str,
+    form: &'static str,
+}
+
+/// The folding table of one operator as a program (also linted by C06: every boundary pair reaches
+/// the constant folder through the whole pipeline).
+pub fn fold_table_program(op: AluOp) -> (Program, Vec<Probe>) {
+    let (p, probes) = fold_table(&op);
+    (p, probes)
+}
+
 fn check_pipeline_folds(ops: &[AluOp], acc: &mut Acc) {
     use crate::graph::{GraphView, Val};
-    struct Probe {
-        ins_index: usize,
-        text: String,
-        want: i32,
-        class: &'static str,
-        form: &'static str,
-    }
     for op in ops {
+        let (p, probes) = fold_table(op);
+        let pr = crate::print::print(&p, &crate::print::Style::base(), &mut Rng::new(1));
+        acc.evaluations += 1;
+        let a = match super::common::analyze(&pr.text) {
+            Ok(a) => a,
+            Err(pi) => {
+                acc.violation(format!("C08|pipeline-fold|{}|panic", op.mnemonic()), format!("analysing the folding table of {} panics at {}: {}", op.mnemonic(), pi.site(), pi.msg), json!({"op": op.mnemonic()}));
+                continue;
+            }
+        };
+        let Ok(cfg) = &a.cfg else {
+            acc.count("pipeline_fold_tables_not_analysed", 1);
+            continue;
+        };
+        let gv = GraphView::of(cfg);
+        let by_line: std::collections::HashMap<usize, &crate::graph::NodeView> = gv.nodes.iter().filter(|n| matches!(n.kind, "Arith" | "IArith" | "Basic" | "UpperArith")).map(|n| (n.line, n)).collect();
+        for pb in &probes {
+            let line = pr.ins[pb.ins_index].line;
+            let Some(node) = by_line.get(&line) else { continue };
+            acc.count("pipeline_fold_probes", 1);
+            match (node.reg_out.get(&7), pb.want) {
+                (Some(Val::Const(c)), Some(want)) => {
+                    acc.count("pipeline_fold_claims", 1);
+                    acc.note("pipeline_fold_forms", format!("{} {}", op.mnemonic(), pb.form));
+                    if *c != want {
+                        acc.violation(
+                            format!("C08|pipeline-fold|{}|{}|{}", op.mnemonic(), pb.form, pb.class),
+                            format!("the analysis claims {c} for `{}`, RV32IM gives {want}", pb.text),
+                            json!({"op": op.mnemonic(), "instruction": pb.text, "claimed": c, "reference": want}),
+                        );
+                    }
+                }
+                (Some(Val::Const(c)), None) => {
+                    acc.count("pipeline_fold_unknown_operand_probes", 1);
+                    acc.violation(
+                        format!("C08|pipeline-fold|{}|{}|constant-from-unknown", op.mnemonic(), pb.form),
+                        format!("the analysis claims the constant {c} for `{}`, whose result depends on a value it cannot know", pb.text),
+                        json!({"op": op.mnemonic(), "instruction": pb.text, "claimed": c}),
+                    );
+                }
+                (_, None) => acc.count("pipeline_fold_unknown_operand_probes", 1),
+                _ => acc.count("pipeline_fold_no_claim", 1),
+            }
+        }
+        acc.count("pipeline_fold_tables", 1);
+    }
+}
+
+fn fold_table(op: &AluOp) -> (Program, Vec<Probe>) {
+    {
         let mut probes: Vec<Probe> = Vec::new();
         let mut p = Program::default();
         p.label("main");
@@ -716,24 +775,59 @@ fn check_pipeline_folds(ops: &[AluOp], acc: &mut Acc) {
                 push(&mut p, Ins::li(5, x));
                 push(&mut p, Ins::li(6, y));
                 let k = push(&mut p, Ins::Alu { op: *op, rd: 7, rs1: 5, rs2: 6 });
-                probes.push(Probe { ins_index: k, text: format!("{} t2, t0(={x}), t1(={y})", op.mnemonic()), want, class: cls, form: "reg-reg" });
+                probes.push(Probe { ins_index: k, text: format!("{} t2, t0(={x}), t1(={y})", op.mnemonic()), want: Some(want), class: cls, form: "reg-reg" });
                 if y == 0 {
                     let k = push(&mut p, Ins::Alu { op: *op, rd: 7, rs1: 5, rs2: ZERO });
-                    probes.push(Probe { ins_index: k, text: format!("{} t2, t0(={x}), zero", op.mnemonic()), want, class: cls, form: "reg-zero" });
+                    probes.push(Probe { ins_index: k, text: format!("{} t2, t0(={x}), zero", op.mnemonic()), want: Some(want), class: cls, form: "reg-zero" });
                 }
                 if x == 0 {
                     let k = push(&mut p, Ins::Alu { op: *op, rd: 7, rs1: ZERO, rs2: 6 });
-                    probes.push(Probe { ins_index: k, text: format!("{} t2, zero, t1(={y})", op.mnemonic()), want, class: cls, form: "zero-reg" });
+                    probes.push(Probe { ins_index: k, text: format!("{} t2, zero, t1(={y})", op.mnemonic()), want: Some(want), class: cls, form: "zero-reg" });
                 }
                 let imm_ok = if is_shift { (0..32).contains(&y) } else { (-2048..2048).contains(&y) };
                 if has_imm && imm_ok {
                     let k = push(&mut p, Ins::AluI { op: *op, rd: 7, rs1: 5, imm: y });
-                    probes.push(Probe { ins_index: k, text: format!("{}i t2, t0(={x}), {y}", op.mnemonic()), want, class: cls, form: "reg-imm" });
+                    probes.push(Probe { ins_index: k, text: format!("{}i t2, t0(={x}), {y}", op.mnemonic()), want: Some(want), class: cls, form: "reg-imm" });
                     if x == 0 {
                         let k = push(&mut p, Ins::AluI { op: *op, rd: 7, rs1: ZERO, imm: y });
-                        probes.push(Probe { ins_index: k, text: format!("{}i t2, zero, {y}", op.mnemonic()), want, class: cls, form: "zero-imm" });
+                        probes.push(Probe { ins_index: k, text: format!("{}i t2, zero, {y}", op.mnemonic()), want: Some(want), class: cls, form: "zero-imm" });
                     }
                 }
+            }
+        }
+        // ---- one operand unknown (loaded from memory): a constant may only be claimed if the
+        // result is the same for every value of that operand
+        push(&mut p, Ins::La { rd: 28, label: "cell".into() });
+        push(&mut p, Ins::lw(28, 0, 28));
+        let samples = [0u32, 1, 0xffff_ffff, 0x8000_0000, 0x7fff_ffff, 12345, 0x5555_5555];
+        let independent = |f: &dyn Fn(u32) -> u32| -> Option<i32> {
+            let first = f(samples[0]);
+            if samples.iter().all(|v| f(*v) == first) { Some(first as i32) } else { None }
+        };
+        for x in [0, 1, -1, 5, i32::MIN, 31, 32] {
+            push(&mut p, Ins::li(5, x));
+            let k = push(&mut p, Ins::Alu { op: *op, rd: 7, rs1: 5, rs2: 28 });
+            probes.push(Probe { ins_index: k, text: format!("{} t2, t0(={x}), t3(unknown)", op.mnemonic()), want: independent(&|u| op.eval(x as u32, u)), class: "unknown-operand", form: "reg-unknown" });
+            let k = push(&mut p, Ins::Alu { op: *op, rd: 7, rs1: 28, rs2: 5 });
+            probes.push(Probe { ins_index: k, text: format!("{} t2, t3(unknown), t0(={x})", op.mnemonic()), want: independent(&|u| op.eval(u, x as u32)), class: "unknown-operand", form: "unknown-reg" });
+        }
+        let k = push(&mut p, Ins::Alu { op: *op, rd: 7, rs1: ZERO, rs2: 28 });
+        probes.push(Probe { ins_index: k, text: format!("{} t2, zero, t3(unknown)", op.mnemonic()), want: independent(&|u| op.eval(0, u)), class: "unknown-operand", form: "zero-unknown" });
+        let k = push(&mut p, Ins::Alu { op: *op, rd: 7, rs1: 28, rs2: ZERO });
+        probes.push(Probe { ins_index: k, text: format!("{} t2, t3(unknown), zero", op.mnemonic()), want: independent(&|u| op.eval(u, 0)), class: "unknown-operand", form: "unknown-zero" });
+        let k = push(&mut p, Ins::Alu { op: *op, rd: 7, rs1: 28, rs2: 28 });
+        probes.push(Probe { ins_index: k, text: format!("{} t2, t3(unknown), t3", op.mnemonic()), want: independent(&|u| op.eval(u, u)), class: "unknown-operand", form: "unknown-same" });
+        if has_imm {
+            for y in if is_shift { vec![0, 1, 31] } else { vec![0, 1, -1, 2047, -2048] } {
+                let k = push(&mut p, Ins::AluI { op: *op, rd: 7, rs1: 28, imm: y });
+                probes.push(Probe { ins_index: k, text: format!("{}i t2, t3(unknown), {y}", op.mnemonic()), want: independent(&|u| op.eval(u, y as u32)), class: "unknown-operand", form: "unknown-imm" });
+            }
+        }
+        // ---- lui (once per table; it has no operator of its own)
+        if *op == AluOp::Add {
+            for imm in [0, 1, 2, 0x7ffff, 0x80000, 0xfffff, 0x12345, 0x800] {
+                let k = push(&mut p, Ins::Lui { rd: 7, imm });
+                probes.push(Probe { ins_index: k, text: format!("lui t2, {imm:#x}"), want: Some(((imm as u32) << 12) as i32), class: "upper-immediate", form: "lui" });
             }
         }
         p.push(Ins::mv(A0, 7));
@@ -741,41 +835,10 @@ fn check_pipeline_folds(ops: &[AluOp], acc: &mut Acc) {
         p.push(Ins::Ecall);
         p.push(Ins::li(A7, 10));
         p.push(Ins::Ecall);
-        let pr = crate::print::print(&p, &crate::print::Style::base(), &mut Rng::new(1));
-        acc.evaluations += 1;
-        let a = match super::common::analyze(&pr.text) {
-            Ok(a) => a,
-            Err(pi) => {
-                acc.violation(format!("C08|pipeline-fold|{}|panic", op.mnemonic()), format!("analysing the folding table of {} panics at {}: {}", op.mnemonic(), pi.site(), pi.msg), json!({"op": op.mnemonic()}));
-                continue;
-            }
-        };
-        let Ok(cfg) = &a.cfg else {
-            acc.count("pipeline_fold_tables_not_analysed", 1);
-            continue;
-        };
-        let gv = GraphView::of(cfg);
-        let by_line: std::collections::HashMap<usize, &crate::graph::NodeView> = gv.nodes.iter().filter(|n| n.kind == "Arith" || n.kind == "IArith").map(|n| (n.line, n)).collect();
-        for pb in &probes {
-            let line = pr.ins[pb.ins_index].line;
-            let Some(node) = by_line.get(&line) else { continue };
-            acc.count("pipeline_fold_probes", 1);
-            match node.reg_out.get(&7) {
-                Some(Val::Const(c)) => {
-                    acc.count("pipeline_fold_claims", 1);
-                    acc.note("pipeline_fold_forms", format!("{} {}", op.mnemonic(), pb.form));
-                    if *c != pb.want {
-                        acc.violation(
-                            format!("C08|pipeline-fold|{}|{}|{}", op.mnemonic(), pb.form, pb.class),
-                            format!("the analysis claims {c} for `{}`, RV32IM gives {}", pb.text, pb.want),
-                            json!({"op": op.mnemonic(), "instruction": pb.text, "claimed": c, "reference": pb.want}),
-                        );
-                    }
-                }
-                _ => acc.count("pipeline_fold_no_claim", 1),
-            }
-        }
-        acc.count("pipeline_fold_tables", 1);
+        p.lines.push(Line::SecData);
+        p.label("cell");
+        p.lines.push(Line::Data(Data::Word(vec![7])));
+        (p, probes)
     }
 }
 
@@ -790,7 +853,7 @@ pub fn run(ctx: &Ctx) -> i32 {
         "table 1/2: every mnemonic x operand form printed with representative registers/immediates, parsed by the real parser, \
          decoded nodes executed on the reference machine against the official expansion from boundary + random states; \
          table 3: MathOp::operate vs reference RV32IM ALU on the full 24x24 boundary grid per operator + random pairs; \
-         table 4: the same grid through the whole analysis (`li; li; op` chunks with register, zero-register and immediate operand forms): every constant the analysis claims for a result must be the RV32IM value. \
+         table 4: the same grid through the whole analysis (`li; li; op` chunks with register, zero-register and immediate operand forms): every constant the analysis claims for a result must be the RV32IM value; with one operand loaded from memory a constant may only be claimed if the result does not depend on that operand; `lui` with boundary operands. \
          distinct_nontrivial = distinct instruction texts decoded and compared + (it does not count fold pairs)",
     );
     rep.assume("the reference ALU and expansions in the harness are written from the RISC-V unprivileged spec / assembler manual");
@@ -845,6 +908,7 @@ pub fn run(ctx: &Ctx) -> i32 {
     rep.require("fold_grid_complete_operators", 18);
     rep.require("pipeline_fold_tables", 18);
     rep.require("pipeline_fold_claims", 5000);
+    rep.require("pipeline_fold_unknown_operand_probes", 200);
     rep.acc.sample(json!({"fold": "sll 1, 32 -> reference 1 (shift amount masked to 5 bits)"}));
     rep.finish()
 }
